@@ -160,6 +160,8 @@ pub struct Durable {
     pub magic: u16,
     pub capacity: usize,
     pub rewound: bool,
+    /// the file as the last writable session left it
+    pub file: Vec<u8>,
 }
 
 /// RSIM_STRICT=1: stop a history at the first violation of any property (used to attribute process deaths).
@@ -312,7 +314,7 @@ impl<A: Ar> Exec<A> {
             ("C03", _) | ("C08", _) | ("C10", _) | ("C16", _) | ("C20", _) => false,
             ("C13", "release_cursor") | ("C13", "release_effect") | ("C13", "release_amount") | ("C13", "refs") | ("C13", "value_drop") | ("C13", "detached_released") | ("C13", "clone_side_effect") => false,
             ("C04", "error_kind") | ("C04", "error_not_clean") | ("C04", "readonly_alloc") => false,
-            ("C18", "capacity") | ("C18", "refused_fitting") => false,
+            ("C18", "capacity") | ("C18", "refused_fitting") | ("C18", "cow_file_changed") => false,
             // a clear() that leaves something behind: the consequences (stale bytes handed out, a file that does not
             // reopen) belong to other properties and must stay observable
             ("C17", "clear_state") | ("C17", "clear_not_zeroed") => false,
@@ -909,12 +911,20 @@ impl<A: Ar> Exec<A> {
             Op::Flush(n) => {
                 let a = self.a();
                 let all = a.allocated();
-                let r = match n % 5 {
+                // 5 / 6: lock / unlock one page of the mapping (a locked page makes later madvise / munmap-style calls
+                // of the library fail or behave differently; no allocator state may depend on it)
+                let cap = a.capacity();
+                let pages = (cap / 4096).max(1);
+                let off = (self.step % pages) * 4096;
+                let len = (cap - off).min(4096);
+                let r = match n % 7 {
                     0 => a.flush(),
                     1 => a.flush_async(),
                     2 => a.flush_range(0, all),
                     3 => a.flush_header(),
-                    _ => a.flush_header_and_range(0, all),
+                    4 => a.flush_header_and_range(0, all),
+                    5 => unsafe { a.mlock(off, len) },
+                    _ => unsafe { a.munlock(off, len) },
                 };
                 self.obs(if r.is_ok() { "ok".into() } else { "err:io".into() }, None, None)
             }
@@ -937,7 +947,7 @@ impl<A: Ar> Exec<A> {
             AllocKind::Bytes => (size as u64, size as u64, 1usize),
             AllocKind::Typed => (ti.size as u64, (ti.size + ti.align.saturating_sub(1)) as u64, ti.align),
             AllocKind::Aligned => {
-                if ti.size == 0 {
+                if ti.size == 0 && (ti.align == 1 || size == 0) {
                     (size as u64, size as u64, 1)
                 } else {
                     (ti.size as u64 + size as u64, (ti.size + ti.align - 1) as u64 + size as u64, ti.align)
@@ -981,7 +991,8 @@ impl<A: Ar> Exec<A> {
                             }
                         }
                         AllocKind::Aligned => {
-                            if ti.size > 0 && off % ti.align != 0 {
+                            // "can hold a well-aligned T and `size` more bytes": also for a zero-sized T with an alignment
+                            if off % ti.align != 0 {
                                 self.v("C03", "alignment", format!("alloc_aligned_bytes::<{}>({}) offset {} not a multiple of {}", ti.name, size, off, ti.align));
                             }
                             if (hcap as u64) < need_lo {
@@ -1179,6 +1190,21 @@ impl<A: Ar> Exec<A> {
         ST.with(|st| st.borrow().teardowns) - t0
     }
 
+    /// After a copy-on-write / read-only session: what it changed in the file, if anything (an open with a larger
+    /// capacity may have appended zero bytes).
+    fn nondurable_file_change(&self) -> Option<String> {
+        let (Some(d), Some(path)) = (&self.durable, &self.path) else { return None };
+        if d.file.is_empty() || (!self.ro && !self.cow) {
+            return None;
+        }
+        let now = std::fs::read(path).unwrap_or_default();
+        let m = d.file.len().min(now.len());
+        if now.len() < d.file.len() || now[..m] != d.file[..m] || now[m..].iter().any(|b| *b != 0) {
+            return Some(format!("a {} session changed the file: {} -> {} bytes, first difference at {:?}", if self.cow && !self.ro { "copy-on-write" } else { "read-only" }, d.file.len(), now.len(), (0..m).find(|i| now[*i] != d.file[*i])));
+        }
+        None
+    }
+
     fn reopen(&mut self, mode: u8, capk: u8) -> Obs {
         let Some(path) = self.path.clone() else {
             return self.obs("noop".into(), None, None);
@@ -1201,6 +1227,7 @@ impl<A: Ar> Exec<A> {
                 magic: a.magic_version(),
                 capacity: a.capacity(),
                 rewound: self.rewound,
+                file: Vec::new(),
             });
         }
         let n = self.close_all();
@@ -1211,8 +1238,16 @@ impl<A: Ar> Exec<A> {
             let d = self.durable.as_mut().unwrap();
             d.kept = self.kept.clone();
             d.dead_zones = self.dead_zones.clone();
+            d.file = std::fs::read(&path).unwrap_or_default();
         } else if let Some(d) = &self.durable {
-            // copy-on-write / read-only session ends: nothing of it may have reached the file
+            // copy-on-write / read-only session ends: nothing of it may have reached the file (an open with a larger
+            // capacity may have appended zero bytes)
+            if let Some(detail) = self.nondurable_file_change() {
+                self.v("C05", "nondurable_session_altered_file", detail);
+                self.dead = true;
+                return Obs { result: "crash:file_altered".into(), ..Default::default() };
+            }
+            let d = self.durable.as_ref().unwrap();
             self.kept = d.kept.clone();
             self.dead_zones = d.dead_zones.clone();
             self.rewound = d.rewound;
@@ -1513,6 +1548,11 @@ impl<A: Ar> Exec<A> {
         let total = ST.with(|st| st.borrow().teardowns) - t0;
         if !self.dead && total != 1 {
             self.v("C13", "teardown_count", format!("backing store released {} times", total));
+        }
+        if !self.dead && !self.remove_on_drop {
+            if let Some(detail) = self.nondurable_file_change() {
+                self.v("C05", "nondurable_session_altered_file", detail);
+            }
         }
         if let Some(p) = &path {
             if !self.dead && self.remove_on_drop && p.exists() {
